@@ -93,6 +93,9 @@ class MetaRunner(object):
             # we only unqueue payloads *while* watching runners as payloads could
             # cause the runners to fail – we need to stop unqueueing them as well.
             await asyncio.gather(*runner_tasks, self._unqueue_payloads())
+            # stopped gracefully: see the close through as well,
+            # payloads may need to be cancelled more than once
+            await self._close_runners(runner_tasks)
         except KeyboardInterrupt:
             # KeyboardInterrupt in a runner task immediately kills the event loop.
             # When we get resurrected, the exception has already been handled!
